@@ -68,7 +68,7 @@ def rule_allproviders(ctx: Ctx):
     rep.floor("C12.allproviders", "provider iterations that have the name", n, 3)
     tk = ctx.fn("Listeners._take_callback")
     n_many = 0
-    for p in ctx.paths(tk, inline=None, exc_edges="none", unroll=2):
+    for p in ctx.paths(tk, inline=None, exc_edges="none", unroll=2, loops_for_comps=True):
         evs = p.events
         its = [e for e in evs if e.kind == "iter" and e.x.get("loop") == "for"]
         apps = [e for e in p.calls() if isinstance(e.term.func, ast.Attribute) and e.term.func.attr == "append"]
@@ -358,7 +358,8 @@ def rule_own(ctx: Ctx, rule: str = "C12.own"):
                   f"{mname} creates the per-instance containers before any provider is attached", fn.key, f"order: {[a for _, a in sorted(order)]}")
     ri = ctx.fn("CallbacksRegistry.__init__")
     got = {show(t): show(n.value) for n in own_nodes(ri.node) if isinstance(n, (ast.Assign, ast.AnnAssign)) for t in (n.targets if isinstance(n, ast.Assign) else [n.target])}
-    rep.check(got.get("self._registry") == "defaultdict(CallbacksExecutor)", rule, ri.loc(), "a registry owns a fresh executor table", ri.key, str(got))
+    rep.check(got.get("self._registry") in ("defaultdict(CallbacksExecutor)", "{}", "dict()"), rule, ri.loc(), "a registry owns a fresh executor table",
+              ri.key, str(got))
     ei = ctx.fn("CallbacksExecutor.__init__")
     got = {show(t): show(n.value) for n in own_nodes(ei.node) if isinstance(n, (ast.Assign, ast.AnnAssign)) for t in (n.targets if isinstance(n, ast.Assign) else [n.target])}
     rep.check(got.get("self.items") in ("deque()", "[]") and got.get("self.items_already_seen") == "set()", rule, ei.loc(),
